@@ -35,6 +35,10 @@ func (c *userTypesCollector) collect(node ischema.Node) {
 		c.collectUserTypesFromAdditionalPropertiesOfConstraint(node)
 		c.collectUserTypesObjectNode(n)
 
+	case *ischema.MixedNode:
+		// the rule-set of an `or` item: {type: "object", additionalProperties: "@a"}
+		c.collectUserTypesFromAdditionalPropertiesOfConstraint(node)
+
 	case *ischema.ArrayNode:
 		for _, child := range n.Children() {
 			c.collect(child)
